@@ -39,6 +39,17 @@ Theorem nothing_left_behind : forall gate calls ws,
   = concat (map (serve_call gate) calls) ++ serve_flat current gate ws.
 Proof. intros g cs ws H. exact (serve_flat_prefix g cs ws (scope_forall g cs H)). Qed.
 
+(* Pipelined clients: however the client groups the calls of an in-scope history
+   into writes (request k+1 already on the wire while request k is being read),
+   the connection carries the concatenation of what each group gets when it is
+   the whole connection - no response is lost, merged or reordered across a
+   write boundary. The harness drives exactly these groupings over TCP / Unix. *)
+Theorem pipelining_irrelevant : forall gate sizes calls,
+  forallb in_scope calls = true ->
+  serve_flat current gate (client_writes calls)
+  = concat (map (fun b => serve_flat current gate (client_writes b)) (bursts_of sizes calls)).
+Proof. exact pipelining_irrelevant. Qed.
+
 (* Exactly one complete response per request, in order: the output splits into
    one group per call, each an optional header stream (stream calls only)
    followed by exactly one data stream that is well formed for that call (not a
